@@ -1723,6 +1723,25 @@ def check_C10(ctx):
         s1, s2 = gen_text(rng, 15), gen_text(rng, 15)
         leg.append((f"msgleg strequal {hexs(ex.encode())} {hexs(s1.encode())} {hexs(s2.encode())}", fmts["assert_string_equal_"] % (ex, s2, s1), [ex, s1, s2]))
         leg.append((f"msgmock {rng.choice(['equal', 'less', 'greater'])} {a} {e}", None, [str(a), str(e)]))
+    # contents constraints: where the blocks differ (at any offset, the last byte too), and why a comparison cannot be made
+    off_t = arr.get("at_offset", "\n\t\tat offset:\t\t\t[%d]"); cont_t = arr.get("expected_content", "\n\t\t\tactual value:\t\t[0x%02x]\n\t\t\texpected value:\t\t[0x%02x]")
+    for _ in range(sizes(ctx, 300, 4000)):
+        ex_a, ex_e = gen_text(rng) or "a", gen_text(rng) or "e"
+        size = rng.choice([1, 2, 3, 8, 9, 16, 33])
+        a = bytes(rng.randrange(256) for _ in range(size))
+        r = rng.random()
+        if r < 0.7:
+            at = rng.choice([0, size // 2, size - 1])
+            e = bytearray(a); e[at] = (e[at] + 1 + rng.randrange(255)) % 256; e = bytes(e)
+            first = next(i for i in range(size) if a[i] != e[i])
+            want = ("Expected [%s] to [equal contents of] [%s]" % (ex_a, ex_e)) + off_t % first + cont_t % (a[first], e[first])
+            leg.append((f"msgmem equal {hexs(ex_a.encode())} {hexs(ex_e.encode())} {size} {a.hex()} {e.hex()}", want, [ex_a, ex_e, str(first), "0x%02x" % a[first], "0x%02x" % e[first]]))
+        elif r < 0.8:
+            leg.append((f"msgmem equal {hexs(ex_a.encode())} {hexs(ex_e.encode())} {rng.choice([0, -1, -5])} {a.hex()} {a.hex()}", None, [ex_e]))
+        elif r < 0.9:
+            leg.append((f"msgmem {rng.choice(['equal', 'notequal'])} {hexs(ex_a.encode())} {hexs(ex_e.encode())} {size} - {a.hex()}", None, [ex_e]))
+        else:
+            leg.append((f"msgmem {rng.choice(['equal', 'notequal'])} {hexs(ex_a.encode())} {hexs(ex_e.encode())} {size} {a.hex()} -", None, [ex_e]))
     got, rc, err = run_probe(exe, probe_lines + [l for l, _, _ in leg], env=asan_env())
     model = run_model(["fmt"], "\n".join(model_lines) + "\n").split("\n")[:-1]
     if rc != 0 or len(got) != len(probe_lines) + len(leg):
